@@ -119,8 +119,13 @@ def gen_random(rng):
             hist.append(("isrun", rng.randrange(nh)))
         elif r < 0.66:
             hist.append(("q", rng.randrange(nh), rng.choice(["name", "ppid", "status", "create_time", "cpu_times", "nice"])))
+        elif r < 0.69:
+            hist.append(("iter", "keep") if rng.random() < 0.5 else ("iter",))
+            nh += sum(1 for q in pids if state[q] != "free")
+        elif r < 0.70:
+            hist.append(("step", rng.choice([300, -300, 86400, 7])))
         elif r < 0.71:
-            hist.append(("iter",))
+            hist.append(("boot",))
         elif r < 0.74:
             hist.append(("pidex", p))
         elif r < 0.88:
